@@ -26,6 +26,9 @@ pub enum Ev {
   Gap(u8, i64, i64, Vec<i64>),
   /// DataReader::take(max) ; 0 = unlimited
   Take(u8),
+  /// discovery announces the (matched, unchanged) writer again, as it does on every SPDP / SEDP refresh:
+  /// nothing the reader knows about the writer's stream may change
+  Reannounce(u8),
 }
 
 #[derive(Debug, Clone, Copy, PartialEq, Serialize)]
@@ -283,6 +286,7 @@ fn ev_kind(e: &Ev) -> &'static str {
     Ev::HbStale(_) => "HB-stale",
     Ev::Gap(..) => "GAP",
     Ev::Take(_) => "TAKE",
+    Ev::Reannounce(_) => "REANNOUNCE",
   }
 }
 
@@ -340,6 +344,7 @@ impl Model for M {
           let b = sim.hb_bytes(*w, first, last, l.hb_count, fin);
           sim.inject(&b);
         }
+        Ev::Reannounce(w) => sim.reannounce(*w),
         Ev::Gap(w, start, base, set) => {
           let b = sim.gap_bytes(*w, *start, *base, set);
           sim.inject(&b);
@@ -494,6 +499,9 @@ impl Model for M {
       if l.last_hb.is_some() {
         next.push(Ev::HbStale(w));
       }
+      // (a no-op on the model, and on the implementation as long as it holds: the successor merges with
+      // the current state, so the event costs one transition per state and needs no bound)
+      next.push(Ev::Reannounce(w));
       for (s, b, set) in &self.cfg.gap_menu[w as usize] {
         next.push(Ev::Gap(w, *s, *b, set.clone()));
       }
